@@ -1251,10 +1251,11 @@ Proof.
 Qed.
 
 Lemma inv_upd_owner s c cn uid gid : orefa_inv s -> oget (o_heap s) c = Some cn ->
-  orefa_inv (o_with_heap s (oupd (o_heap s) c (on_with_meta cn (with_owner (on_meta cn) uid gid)))).
+  orefa_inv (o_with_heap s (oupd (o_heap s) c (on_with_meta cn (o_chown_meta (on_meta cn) uid gid)))).
 Proof.
   intros Hinv Hc. apply inv_with_heap; [exact Hinv|].
-  apply (hinv_upd _ _ c cn); try reflexivity; [apply (inv_h _ Hinv)|exact Hc].
+  apply (hinv_upd _ _ c cn); try reflexivity; [apply (inv_h _ Hinv)|exact Hc|].
+  unfold on_dir. cbn [on_with_meta on_meta]. apply o_chown_meta_dir.
 Qed.
 
 (* ---- Mkdir ------------------------------------------------------------------------------------------------ *)
